@@ -3,11 +3,17 @@
 mod util;
 mod encop;
 mod decop;
+mod floatop;
 mod dispop;
+mod intconv;
+mod c02op;
 mod typed;
 mod tokop;
 
 use std::io::{BufRead, Write};
+
+#[global_allocator]
+static GLOBAL: c02op::Counting = c02op::Counting;
 
 fn main() {
     std::panic::set_hook(Box::new(|_| {}));
@@ -29,7 +35,12 @@ fn dispatch(w: &[&str]) -> String {
     match w[0] {
         "enc" => encop::run(&w[1..]),
         "dec" => decop::run(&w[1..]),
+        "fblk" => floatop::run(&w[1..]),
         "display" => dispop::run(&w[1..]),
+        "intconv" => intconv::run(&w[1..]),
+        "seq" => decop::run_seq(&w[1..]),
+        "tdecm" => c02op::run_tdecm(&w[1..]),
+        "dropcount" => c02op::run_dropcount(&w[1..]),
         "tenc" => typed::run_enc(&w[1..]),
         "tdec" => typed::run_dec(&w[1..]),
         "tokenc" => tokop::run_enc(&w[1..]),
